@@ -531,7 +531,7 @@ class PEP8Normalizer(ErrorFinder):
         # -------------------------------
         # Finalizing. Updating the state.
         # -------------------------------
-        if value and value in '()[]{}' and type_ != 'error_leaf' \
+        if value and value in '()[]{}' and type_ == 'operator' \
                 and part.parent.type != 'error_node':
             if value in _OPENING_BRACKETS:
                 self._indentation_tos = BracketNode(
